@@ -29,7 +29,7 @@ class World:
             'Loop::runNext': self.h_run_next, 'Loop::runInLoop': self.h_run_next, 'Loop::run': self.h_run_next, 'Loop::cancel': self.h_cancel, 'Loop::newTimerEvent': self.h_new_timer,
             'bind': lambda it, f, st, a: ('bind', a[0], list(a[1:])), 'move': lambda it, f, st, a: a[0], 'forward': lambda it, f, st, a: a[0],
             'LogPrintfFunc': noop, 'ToString': noop, 'c_str': lambda it, f, st, a: it.cur_obj, 'abort': self.h_abort,
-            'operator+': lambda it, f, st, a: (([it.cur_obj] if isinstance(it.cur_obj, int) else []) + [x for x in a if isinstance(x, int)]) and sum(([it.cur_obj] if isinstance(it.cur_obj, int) else []) + [x for x in a if isinstance(x, int)]) if all(isinstance(x, int) for x in a) and a else None,
+            'operator+': lambda it, f, st, a: (lambda ops: sum(ops) if ops and all(isinstance(x, int) for x in ops) else None)(([it.cur_obj] if 'obj' in st else []) + list(a)),
             'max': lambda it, f, st, a: max(a[0], a[1]) if len(a) == 2 and all(isinstance(x, int) for x in a) else None,
             'min': lambda it, f, st, a: min(a[0], a[1]) if len(a) == 2 and all(isinstance(x, int) for x in a) else None,
             'Variables::setParent': noop, 'now': lambda it, f, st, a: self.now,
@@ -189,13 +189,23 @@ class Built:
                 self.starts.append(idx)
                 self.leaves[idx][2] += 1
                 return int(ok)
-            rec = w.new(NS + 'FunctionAction', [L, fn], pick=lambda g: g.params[1]['t'].replace('tbox::flow::FunctionAction::', '').strip() in ('Func &&',))
+            form = ('Func &&', 'FuncWithReason &&', 'FuncWithVars &&', 'FuncWithReasonVars &&')[spec[2] if len(spec) > 2 else 0]
+            nargs = (0, 1, 1, 2)[spec[2] if len(spec) > 2 else 0]
+
+            def fn_any(*a, fn=fn, nargs=nargs):
+                if len(a) != nargs:
+                    w.it.faults.append('the function of a FunctionAction is called with %d argument(s) where its form takes %d' % (len(a), nargs))
+                return fn()
+            rec = w.new(NS + 'FunctionAction', [L, fn_any], pick=lambda g: g.params[1]['t'].replace('tbox::flow::FunctionAction::', '').strip() == form)
             self.leaves.append([rec, [('now', spec[1])], 0])
             self.nodes.append(rec)
             return rec
         if kind == 'sleep':
             idx = len(self.leaves)
-            rec = w.new(NS + 'SleepAction', [L, spec[1]], pick=lambda g: 'milliseconds' in g.params[1]['t'])
+            if len(spec) > 2:       # the span comes from a generator asked at every start
+                rec = w.new(NS + 'SleepAction', [L, lambda n_=spec[1]: n_], pick=lambda g: 'Generator' in g.params[1]['t'])
+            else:
+                rec = w.new(NS + 'SleepAction', [L, spec[1]], pick=lambda g: 'milliseconds' in g.params[1]['t'])
             self.leaves.append([rec, [('sleep', spec[1])], 0])
             self.sleepers[id(rec)] = idx
             self.nodes.append(rec)
@@ -632,6 +642,10 @@ def trees(full):
         out.append(('seq', m, [('sleep', 2), ('func', 0), ('sleep', 1)]))
         out.append(('par', m, [('sleep', 2), ('sleep', 1), leaf(D)]))
         out.append(('par', m, [('func', 1), ('sleep', 1)]))
+    out.append(('seq', 0, [('func', 1, 1), ('func', 0, 2), ('func', 1, 3)]))
+    out.append(('seq', 1, [('func', 1, 3), ('func', 1, 2), ('func', 0, 1), ('func', 1, 0)]))
+    out.append(('par', 1, [('sleep', 3, 'gen'), ('sleep', 1, 'gen'), ('sleep', 2)]))
+    out.append(('seq', 0, [('sleep', 1, 'gen'), ('func', 0, 2)]))
     out.append(('wrap', 1, ('sleep', 1)))
     out.append(('repeat', 2, 0, ('sleep', 1)))
     out.append(('ifelse', ('func', 0), ('func', 1), ('sleep', 1)))
@@ -661,9 +675,9 @@ def trees(full):
 def describe(spec):
     k = spec[0]
     if k == 'func':
-        return 'Function(%s)' % ('ok' if spec[1] else 'fail')
+        return 'Function%s(%s)' % (('', 'WithReason', 'WithVars', 'WithReasonVars')[spec[2] if len(spec) > 2 else 0], 'ok' if spec[1] else 'fail')
     if k == 'sleep':
-        return 'Sleep(%d)' % spec[1]
+        return 'Sleep(%s%d)' % ('generator: ' if len(spec) > 2 else '', spec[1])
     if k == 'switch':
         return 'Switch[%s; %s%s]' % (describe(spec[1]), ', '.join('case %s: %s' % (nm, describe(c)) for nm, c in spec[2]), '; default: ' + describe(spec[3]) if spec[3] is not None else '')
     if k == 'leaf':
@@ -696,6 +710,8 @@ def check_tree(prog, spec, scenarios=True):
         return 'the root finishes %s where the documented control flow gives %s' % (fin(b.finished), fin(ref.finished))
     if b.starts != ref.starts:
         return 'the leaves are started in the order %s where the documented control flow starts %s' % (b.starts, ref.starts)
+    if n != nref:
+        return 'the tree comes to rest after %d leaf event(s) where the documented control flow takes %d (a composite finishes before / after the children it waits for)' % (n, nref)
     if b.finished and b.underway():
         return 'after the root has finished %d descendant(s) are still running or paused' % len(b.underway())
     if w.queue:
@@ -744,10 +760,13 @@ def check_tree(prog, spec, scenarios=True):
             return 'after reset() %d action(s) of the tree are not idle' % sum(1 for s_ in states if s_ != 0)
         for lf in b.leaves:
             lf[2] = 0
-        b.finished, b.starts, b.pending, b.tick = [], [], [], 0
-        b.run()
+        b.finished, b.starts, b.pending = [], [], []         # time goes on: the clock of the leaves and the clock of the timers stay the same one
+        b.tick = max(b.tick, getattr(w, 'now', 0))
+        n2 = b.run()
         if w.it.faults:
             return 'second run after reset(): %s' % w.it.faults[0]
+        if n2 != n:
+            return 'after reset() the second run comes to rest after %d leaf event(s) where the first took %d: state of the first run survives the reset' % (n2, n)
         if (b.finished, b.starts) != first:
             return 'after reset() the second run gives %s / starts %s where the first gave %s / %s' % (fin(b.finished), b.starts, fin(first[0]), first[1])
     return None
@@ -766,7 +785,7 @@ def r11(ctx, prog):
              'levels deep; repeat / loop / loop-if with per-run outcomes) are built through the public API on the syntax trees of flow::Action and the composites and run on a model of '
              'the loop (deferred notifications, cancellation).  For each tree: the root finishes exactly as the reference evaluator says (once, with that result, or never), the leaves are '
              'started in the reference order, nothing is left running, paused or queued at rest; stop() after every number of leaf events silences the tree (no finish callback, no '
-             'descendant under way, no leaf still waiting); reset() after the run makes every action idle and a second run repeats the first; pause() placed between a leaf\'s finish and the delivery of its notification, followed by resume(), does not change the outcome; a time-out on the root that fires while the tree is at work finishes it once, with failure, and leaves nothing below it running; pause() leaves nothing running and disarms the time-out, resume() re-arms it and the run ends as the undisturbed one; the final hook runs once per run and result() agrees with the callback; a leaf that blocks pauses the whole tree, is reported once, and after resume() the run ends as the undisturbed one' % len(ts), floor=1)
+             'descendant under way, no leaf still waiting); reset() after the run makes every action idle and a second run repeats the first; pause() placed between a leaf\'s finish and the delivery of its notification, followed by resume(), does not change the outcome; a time-out on the root that fires while the tree is at work finishes it once, with failure, and leaves nothing below it running; pause() leaves nothing running and disarms the time-out, resume() re-arms it and the run ends as the undisturbed one; the final hook runs once per run and result() agrees with the callback; a leaf that blocks pauses the whole tree, is reported once, and after resume() the run ends as the undisturbed one; the tree comes to rest after as many leaf events as the reference (first and second run); stop(), reset() or pause() before the time-out is due leave no armed time-out timer that could finish the action afterwards; the timer of a SleepAction is armed for its span at start and for what is left of it after pause() / resume()' % len(ts), floor=1)
     if not any(g.name == NS + 'DummyAction::onStart' for g in prog.funcs.values()):
         from tbxlint.facts import extract
         prog = extract('ALL')
@@ -779,6 +798,9 @@ def r11(ctx, prog):
             bad = (spec, why)
             break
     f = prog.fn1(NS + 'Action::finish')
+    why = check_sleep(prog)
+    g = prog.fn1(NS + 'SleepAction::onResume')
+    ctx.ob('C17.R11', 'flow|sleep-timer', why is None, 'armed for the span at start, for what is left of it after pause() / resume()' if why is None else why, where=g.loc(g.body))
     ctx.ob('C17.R11', 'flow|trees', bad is None, '%d trees agree with the reference in all scenarios' % n if bad is None else
            '%s: %s' % (describe(bad[0]), bad[1]), where=f.loc(f.body))
 
@@ -881,6 +903,25 @@ def check_timeout(prog, spec):
         return 'the root has finished by its time-out and a leaf below it is still waiting to deliver its result'
     if len(b.finished) != 1:
         return 'after the time-out the finish callback is invoked again'
+    # the run is left (stop, reset) or suspended (pause) before the time-out is due: the timer must not deliver anything to it afterwards
+    for op in ('stop', 'reset', 'pause'):
+        w = World(prog)
+        b = Built(w, spec)
+        w.call(b.root, 'setTimeout', [1])
+        w.call(b.root, 'start')
+        w.drain()
+        if b.finished or w.it.faults:
+            break
+        w.call(b.root, op)
+        w.drain()
+        before = (list(b.finished), [nd.get('state_') for nd in b.nodes])
+        fired = w.fire_next_timer()
+        w.drain()
+        if w.it.faults:
+            return '%s() before the time-out is due, then the timer fires: %s' % (op, w.it.faults[0])
+        if fired and (list(b.finished), [nd.get('state_') for nd in b.nodes]) != before:
+            return '%s() before the time-out is due: the timer of the root is left armed and, when it fires, %s' % (
+                op, 'the finish callback of the %s root is invoked' % {'stop': 'stopped', 'reset': 'reset (idle)', 'pause': 'paused'}[op] if b.finished != before[0] else 'the states of the tree change')
     return None
 
 
@@ -938,4 +979,41 @@ def check_block(prog, spec):
         return 'after a block/resume the root has finished and %d descendant(s) are still running or paused' % len(b.underway())
     if len(b.blocks) != getattr(b, 'block_events', 0):
         return '%d block(s) of a leaf are reported %d time(s) by the root' % (getattr(b, 'block_events', 0), len(b.blocks))
+    return None
+
+
+def check_sleep(prog):
+    """the timer of a SleepAction: armed for its span at start; pause() keeps what is left of the span and resume() arms the timer for exactly that"""
+    for span, t_pause, t_resume in ((5, 2, 10), (5, 0, 3), (4, 3, 3), (7, 6, 20)):
+        for wrapped in (False, True):
+            w = World(prog)
+            spec = ('seq', 0, [('sleep', span)]) if wrapped else ('sleep', span)
+            b = Built(w, spec)
+            w.now = 100
+            w.call(b.root, 'start')
+            w.drain()
+            tm = [t for t in w.timers if t.get('owner') == 'sleep']
+            if w.it.faults:
+                return w.it.faults[0]
+            if len(tm) != 1 or not tm[0].get('enabled') or tm[0].get('deadline') != 100 + span:
+                return '%s started at 100: its timer is %s where armed for 100 + %d is due' % (describe(spec), 'armed for %s' % tm[0].get('deadline') if tm and tm[0].get('enabled') else 'not armed', span)
+            w.now = 100 + t_pause
+            w.call(b.root, 'pause')
+            w.drain()
+            if tm[0].get('enabled'):
+                return '%s paused: its timer stays armed' % describe(spec)
+            w.now = 100 + t_resume
+            w.call(b.root, 'resume')
+            w.drain()
+            if w.it.faults:
+                return w.it.faults[0]
+            want = 100 + t_resume + (span - t_pause)
+            if not tm[0].get('enabled') or tm[0].get('deadline') != want:
+                return '%s started at 100, paused at %d, resumed at %d: its timer is %s where armed for %d (what was left of the span) is due' % (
+                    describe(spec), 100 + t_pause, 100 + t_resume, 'armed for %s' % tm[0].get('deadline') if tm[0].get('enabled') else 'not armed', want)
+            if not w.fire_next_timer('sleep'):
+                return '%s: the timer does not fire' % describe(spec)
+            w.drain()
+            if b.finished != [1]:
+                return '%s: when its timer fires the root finishes %s where one success is due' % (describe(spec), fin(b.finished))
     return None
